@@ -61,9 +61,9 @@ func heldDatagrams(c *Ctx, r *Rng, kind string) {
 	defer conn.Close()
 	buf := make([]byte, 4096)
 	rounds := c.Scale(25, 400)
-	bad, total := 0, 0
+	bad, total, silent := 0, 0, 0
 	first := ""
-	for i := 0; i < rounds; i++ {
+	for i := 0; i < rounds && silent < 2; i++ { // a server that has stopped answering is reported, not waited for
 		// accepted by the policy, undecodable: a query header announcing one question, then half a name
 		poison := append(buildMsgWire(uint16(40000+i), 0, nil, nil, nil, nil), 5, 'a', 'b')
 		poison[5] = 1
@@ -122,6 +122,11 @@ func heldDatagrams(c *Ctx, r *Rng, kind string) {
 		for _, q := range []*dns.Msg{qa, qb} {
 			total++
 			want := fmt.Sprintf("%d %s", q.Id, q.Question[0].Name)
+			if _, ok := got[q.Id]; !ok {
+				silent++
+			} else {
+				silent = 0
+			}
 			if got[q.Id] != want {
 				bad++
 				if first == "" {
